@@ -97,10 +97,13 @@ class _transform_refuse:
             for d in (1, 2, 3, 4):
                 if d not in dims:
                     out.append({"cls": cls, "d": d})
+            # a stacked block (M, N, k) of points of the right last dimension is not a batch of points either
+            out.append({"cls": cls, "d": dims[0] if isinstance(dims, (tuple, list)) else dims, "block": True})
         return out
 
     def inputs(b):
-        return dict(cls=b.module_attr("physt.special_histograms", b.cfg.cls), value=b.array("p", (b.cfg.d,)))
+        shape = (1, 2, b.cfg.d) if getattr(b.cfg, "block", False) else (b.cfg.d,)
+        return dict(cls=b.module_attr("physt.special_histograms", b.cfg.cls), value=b.array("p", shape))
 
     def invoke(I, fn, a, cfg):
         if I is not None:
@@ -121,7 +124,12 @@ def special_hist(b, cls, shape, kinds=None, dtype="int64"):
         from pyvc.values import Obj
         o = b.obj(SP + cls, **{k: attr(h, k) for k in ("_binnings", "_frequencies", "_errors2", "_missed", "_dtype", "_meta_data", "keep_missed", "_stats")})
         return o
-    return histnd(b, "h", bins, shape, dtype=dtype, cls=SP + cls)
+    h = histnd(b, "h", bins, shape, dtype=dtype, cls=SP + cls)
+    if getattr(b.cfg, "radius", False):      # a cylinder surface of a radius other than the default 1 (stored in the meta data)
+        R = b.real("R")
+        b.assume(R > 0)
+        attr(h, "_meta_data")["radius"] = R
+    return h
 
 
 def _fb_cfgs():
@@ -255,11 +263,17 @@ def _spproj_cfgs():
             {"cls": "CylindricalHistogram", "shape": (2, 1, 2), "axes": (0, 1), "want": "PolarHistogram"},
             {"cls": "CylindricalHistogram", "shape": (2, 1, 2), "axes": (1,), "want": "AzimuthalHistogram"},
             {"cls": "CylindricalHistogram", "shape": (2, 1, 2), "axes": ("rho",), "want": "RadialHistogram"},
-            {"cls": "CylindricalSurfaceHistogram", "shape": (2, 1), "axes": (0,), "want": "AzimuthalHistogram"}]
+            {"cls": "CylindricalSurfaceHistogram", "shape": (2, 1), "axes": (0,), "want": "AzimuthalHistogram"},
+            # axes that are neither a radius nor an azimuth have no special class: theta, z
+            {"cls": "SphericalSurfaceHistogram", "shape": (2, 1), "axes": (0,), "want": "Histogram1D"},
+            {"cls": "SphericalSurfaceHistogram", "shape": (2, 1), "axes": ("theta",), "want": "Histogram1D"},
+            {"cls": "SphericalHistogram", "shape": (1, 2, 1), "axes": (1,), "want": "Histogram1D"},
+            {"cls": "CylindricalSurfaceHistogram", "shape": (2, 1), "axes": ("z",), "want": "Histogram1D"},
+            {"cls": "CylindricalHistogram", "shape": (2, 1, 2), "axes": (2,), "want": "Histogram1D"}]
 
 
 AXN = {"PolarHistogram": ("r", "phi"), "SphericalHistogram": ("r", "theta", "phi"), "CylindricalHistogram": ("rho", "phi", "z"),
-       "CylindricalSurfaceHistogram": ("phi", "z")}
+       "CylindricalSurfaceHistogram": ("phi", "z"), "SphericalSurfaceHistogram": ("theta", "phi")}
 
 
 @contract(SP + "TransformedHistogramMixin.projection", props=["C15", "C09"])
@@ -303,7 +317,8 @@ class _sp_projection:
 def _bs_cfgs():
     return [{"cls": "RadialHistogram", "shape": (2,)}, {"cls": "AzimuthalHistogram", "shape": (2,)}, {"cls": "PolarHistogram", "shape": (2, 2)},
             {"cls": "SphericalSurfaceHistogram", "shape": (2, 1)}, {"cls": "SphericalHistogram", "shape": (2, 2, 1)},
-            {"cls": "CylindricalSurfaceHistogram", "shape": (1, 2)}, {"cls": "CylindricalHistogram", "shape": (2, 1, 2)}]
+            {"cls": "CylindricalSurfaceHistogram", "shape": (1, 2)}, {"cls": "CylindricalHistogram", "shape": (2, 1, 2)},
+            {"cls": "CylindricalSurfaceHistogram", "shape": (1, 2), "radius": True}]
 
 
 def measure(cls, edges):
